@@ -600,6 +600,13 @@ example : Dec2Bin.narrow32 (Dec2Bin.nearest64 ([0] ++ [1]) (0 - 1)) = 0x3dcccccd
     Model.LitFormat.wholeValue? Dec2Bin.binary32 0x3dcccccd = none ∧
     (Model.LitFormat.fmtFloat .f32 false 0x3dcccccd [48, 46, 49]).toOption = some [48, 46, 49, 102] ∧
     (tokenIntermediate [48, 46, 49, 102, 59] false).toOption = some ([59], .litFloat32 0x3dcccccd) := by decide
+/-- non-vacuity of the `<Display>.0` arm of `emit_value_exact`: `1e30f` (`0x7149f2ca`, `Display` = 1 followed by 30 zeros) -/
+example : Dec2Bin.narrow32 (Dec2Bin.nearest64 (1 :: List.replicate 30 0) 0) = 0x7149f2ca ∧
+    (Model.LitFormat.wholeValue? Dec2Bin.binary32 0x7149f2ca).isSome = true ∧
+    (Model.LitFormat.fmtFloat .f32 false 0x7149f2ca (49 :: List.replicate 30 48)).toOption =
+      some (49 :: List.replicate 30 48 ++ [46, 48, 102]) ∧
+    (tokenIntermediate (49 :: List.replicate 30 48 ++ [46, 48, 102, 41]) false).toOption =
+      some ([41], .litFloat32 0x7149f2ca) := by decide
 /-- non-vacuity of `emit_whole_value_exact`: `255.0h` and the saturating `2^63` as a double -/
 example : (Model.LitFormat.fmtFloat .f16 true 0x437f0000 []).toOption = some [50, 53, 53, 46, 48, 104] ∧
     (tokenIntermediate [50, 53, 53, 46, 48, 104] false).toOption = some ([], .litFloat16 0x437f0000) := by decide
